@@ -267,7 +267,13 @@ class Program:
         self.impls = []
         self.traits = {}
         self.crates = crates
+        self.folded = {}
+        from .normalize import fold_new_helpers
         for cname, j in crates.items():
+            # new private helpers (names the rules have never seen) are read as part of their callers
+            got = fold_new_helpers(cname, j)
+            if got:
+                self.folded[cname] = got
             for n, fj in j["fns"].items():
                 key = n if cname == "profirust" or n not in self.fns else cname + "::" + n
                 self.fns[(cname, n)] = Fn(n, fj, cname)
@@ -302,7 +308,16 @@ class Program:
 
     def closures_of(self, fn):
         pre = fn.name + "::{closure#"
-        return [f for (c, n), f in self.fns.items() if c == fn.crate and n.startswith(pre) and f.kind == "closure"]
+        out = [f for (c, n), f in self.fns.items() if c == fn.crate and n.startswith(pre) and f.kind == "closure"]
+        # closures created in the body but named after another function (the body of a folded helper)
+        for blk in fn.blocks:
+            for s in blk.stmts:
+                rv = s.get("rv") if isinstance(s, dict) else None
+                if rv and rv.get("agg") == "closure":
+                    g = self.fns.get((fn.crate, rv.get("closure")))
+                    if g is not None and g not in out:
+                        out.append(g)
+        return out
 
     def adt(self, crate, name):
         return self.adts.get((crate, name))
